@@ -183,9 +183,10 @@ pub fn run(ctx: &Ctx) {
         record_bfs(ctx, &format!("extend over order-sensitive documents of weight <= {}", aw), &stats, events.len(), depth);
     }
     names_part(ctx);
+    families(ctx);
     ctx.set(
         "rule",
-        json!("order-sensitive document space (attributes: every duplicate-free sequence over {y,x,z}; children over {b,a,c}, alphabets deliberately not in alphabetical order). (a) every single document; (b) breadth-first search over extend_struct. For every history both sort options are rendered: unsorted must list attributes, text, children in first-appearance order of the DOM reference, sort-by-name in ascending XML name; struct definitions in pre-order of that field order; the two renderings must contain the same structs and fields. (c) small trees over 2-subsets of a pool with prefixed, case-variant, keyword and non-ASCII names (sorting is by the full XML name), as one document and split into two. distinct_nontrivial = distinct reference schemas with a position holding >= 2 attributes or >= 2 children"),
+        json!("order-sensitive document space (attributes: every duplicate-free sequence over {y,x,z}; children over {b,a,c}, alphabets deliberately not in alphabetical order). (a) every single document; (b) breadth-first search over extend_struct. For every history both sort options are rendered: unsorted must list attributes, text, children in first-appearance order of the DOM reference, sort-by-name in ascending XML name; struct definitions in pre-order of that field order; the two renderings must contain the same structs and fields. (c) small trees over 2-subsets of a pool with prefixed, case-variant, keyword and non-ASCII names (sorting is by the full XML name), as one document and split into two. (d) wide elements (9..14 children / attributes named c1..cn in ascending, descending and rotated order) and every history r(a,b,c,d) ++ r(s1) ++ r(s2) with s1, s2 duplicate-free sequences over four names. distinct_nontrivial = distinct reference schemas with a position holding >= 2 attributes or >= 2 children"),
     );
 }
 
@@ -252,6 +253,70 @@ fn names_part(ctx: &Ctx) {
     let evals: u64 = res.accs.iter().sum();
     ctx.add("evaluations", evals);
     ctx.set("named_trees", json!({"names": wanted, "subsets": subs.len(), "subsets_done": res.processed, "nodes_max": params.max_nodes, "histories": evals}));
+    if !res.complete {
+        ctx.set("exhaustive", json!(false));
+    }
+}
+
+/// (d) wide elements and four-name occurrence histories
+fn families(ctx: &Ctx) {
+    let mut histories: Vec<Vec<DocEntry>> = Vec::new();
+    for n in 9..=14usize {
+        let names: Vec<String> = (1..=n).map(|i| format!("c{}", i)).collect();
+        let mut orders: Vec<Vec<String>> = vec![names.clone(), names.iter().rev().cloned().collect()];
+        for k in [1, n / 2, n - 1] {
+            let mut r = names.clone();
+            r.rotate_left(k);
+            orders.push(r);
+        }
+        for o in orders {
+            let kids: String = o.iter().map(|c| format!("<{} k=\"v\"/>", c)).collect();
+            let attrs: String = o.iter().map(|c| format!(" {}=\"v\"", c)).collect();
+            for xml in [format!("<r>{}</r>", kids), format!("<r><p{}/><p/></r>", attrs), format!("<r><p>{}</p><p/></r>", kids)] {
+                if let Ok(d) = DocEntry::from_xml(&xml) {
+                    histories.push(vec![d]);
+                }
+            }
+        }
+    }
+    // all duplicate-free sequences over four names
+    let four = ["a", "b", "c", "d"];
+    let mut seqs: Vec<Vec<&str>> = vec![vec![]];
+    fn rec<'a>(four: &[&'a str], cur: &mut Vec<&'a str>, out: &mut Vec<Vec<&'a str>>) {
+        for n in four {
+            if !cur.contains(n) {
+                cur.push(n);
+                out.push(cur.clone());
+                rec(four, cur, out);
+                cur.pop();
+            }
+        }
+    }
+    rec(&four, &mut Vec::new(), &mut seqs);
+    let doc = |s: &[&str]| DocEntry::from_xml(&format!("<r>{}</r>", s.iter().map(|n| format!("<{}/>", n)).collect::<String>())).expect("doc");
+    let first = doc(&four);
+    for s1 in &seqs {
+        histories.push(vec![first.clone(), doc(s1)]);
+        for s2 in &seqs {
+            histories.push(vec![first.clone(), doc(s1), doc(s2)]);
+        }
+    }
+    let res = par_for(
+        histories.len() as u64,
+        ctx.threads,
+        16,
+        Some(ctx.deadline),
+        |_| 0u64,
+        |acc, i| {
+            let refs: Vec<&DocEntry> = histories[i as usize].iter().collect();
+            if let Ok(el) = run_history(&refs) {
+                ctx.report_all(judge(&refs, &el, (1 << 53) | i));
+                *acc += 1;
+            }
+        },
+    );
+    ctx.add("evaluations", res.accs.iter().sum::<u64>());
+    ctx.set("families", json!({"histories": histories.len(), "done": res.processed}));
     if !res.complete {
         ctx.set("exhaustive", json!(false));
     }
